@@ -456,7 +456,7 @@ func (e *vAofEnv) aofReadHistory(r *rand.Rand, h *vAofHistory, secondEvery int) 
 				more[i].buf[57], more[i].buf[58], more[i].buf[59], more[i].buf[60] = 0, 0, 0, 0
 			}
 			wcfg := h.wcfg
-			apOp := fmt.Sprintf("aofappend %d %s %s", wcfg, img.String(), vAofRecsString(more))
+			apOp := fmt.Sprintf("aofappend %d %d %s %s", wcfg, h.rcfg, img.String(), vAofRecsString(more))
 			apObs := ""
 			func() {
 				defer func() {
